@@ -84,6 +84,7 @@ def run(chk, tier, overlays=()):
             n += judge_site(chk, P, f, b, i, e, idx_of(e))
     measures(chk, P)
     definitions(chk, P)
+    depstage(chk, P)
     chk.floor("PAIRCALL", 11)
 
 
@@ -92,6 +93,42 @@ MI = "SimTK::Measure_::"
 ARITH = {"Plus": ("+", ("left", "right")), "Minus": ("-", ("left", "right")), "Scale": ("*", ("factor", "operand"))}
 EXTREME_CMP = {"Maximum": (">", False), "Minimum": ("<", False), "MaxAbs": (">", True), "MinAbs": ("<", True)}
 EXTREME_INIT = {"Minimum": "+inf", "Maximum": "-inf", "MinAbs": "+inf", "MaxAbs": "0"}
+
+
+def depstage(chk, P):
+    chk.rule("DEPSTAGE", "a composite measure depends on every operand it reads: each operand measure whose value is read by calcCachedValueVirtual / getUncachedValueVirtual "
+             "contributes its getDependsOnStage(...) to the class's getDependsOnStageVirtual -- otherwise the value's cache entry is allocated at too early a stage and is never "
+             "invalidated when that operand changes")
+    byc = {}
+    for f in P.all_fns():
+        if "Measure_" in f.name and "::Implementation::" in f.name and f.d.get("tmpl") == "pattern":
+            byc.setdefault(f.cls, []).append(f)
+    n = 0
+    for c, fs in sorted(byc.items()):
+        dep = [f for f in fs if f.name.endswith("::getDependsOnStageVirtual")]
+        if not dep:
+            continue
+        d = dep[0]
+
+        def operands(f, names):
+            out = set()
+            for _, _, e in f.events():
+                for x in (e.get("x"), e.get("val"), e.get("init"), e.get("rhs")):
+                    for y in sx_find(x, lambda y: y[0] in ("dcall", "call") and str(y[1]).split("::")[-1] in names):
+                        if isinstance(y[2], list):
+                            out.add(sx_str(y[2]))
+            return out
+        depops = operands(d, ("getDependsOnStage",))
+        short = c.replace("SimTK::Measure_::", "").replace("::Implementation", "")
+        for f in sorted(fs, key=lambda f: f.id):
+            nm = f.name.split("::")[-1]
+            if nm not in ("calcCachedValueVirtual", "getUncachedValueVirtual"):
+                continue
+            for op in sorted(operands(f, ("getValue", "getUncachedValue"))):
+                n += 1
+                chk.judge(op in depops, "DEPSTAGE", "%s:%s reads %s" % (short, nm, op.replace("this.", "")), f.loc,
+                          "%s reads the value of operand %s, but getDependsOnStageVirtual takes its stage only from %s" % (nm, op, sorted(depops)))
+    chk.shape(n >= 6, "DEPSTAGE", "operand-reads>=6", "", "%d (value routine, operand) pairs" % n)
 
 
 def _is_operation(x):
@@ -317,6 +354,9 @@ _M = "SimTKcommon/Simulation/include/SimTKcommon/internal/MeasureImplementation.
 _X = "Simbody/src/ExponentialSpringForce.cpp"
 _MI = "SimTKcommon/Simulation/include/SimTKcommon/internal/MeasureImplementation.h"
 MUTATIONS = [
+    dict(name="seeded (sub-agent): Minus takes its depends-on stage from the left operand twice", arm=True, file="SimTKcommon/Simulation/include/SimTKcommon/internal/MeasureImplementation.h",
+         old="    {   return Stage(std::max(left.getDependsOnStage(order),\n                              right.getDependsOnStage(order))); }", occurrence=1,
+         new="    {   return Stage(std::max(left.getDependsOnStage(order),\n                              left.getDependsOnStage(order))); }", expect="DEPSTAGE:Minus:calcCachedValueVirtual reads right"),
     dict(name="Integrate integrates its initial-condition measure instead of its derivative measure", arm=True, file=_MI,
          old="            const T& deriv = derivMeasure.getValue(s);\n             for (int i=0; i < this->size(); ++i)", new="            const T& deriv = icMeasure.getValue(s);\n             for (int i=0; i < this->size(); ++i)",
          expect="DEFN:Integrate:zdot"),
